@@ -47,7 +47,7 @@ class ProgSim(Sim):
     PROBES = ["diamond", "path_length_mismatch", "same_operand_twice", "fanout3", "unbind_2_outputs_used", "frozen_joins_trainable",
               "nonscalar_root_nonuniform_g", "O1_judged", "O3_judged", "O3_skipped_perop_defect", "O4_schedules",
               "gc_between_steps", "forward_fault", "rejected_step", "leaf_without_grad", "float32_node_in_program", "scalar_root_g_none",
-              "multi_contribution_leaf", "O5_frozen_invariance"]
+              "multi_contribution_leaf", "O5_frozen_invariance", "deep_program", "flagmix_scenario"]
     RULE = ("one run = one generated DAG program (2-6 leaves, 3-16 steps over the op catalogue, biased per run to a scenario) differentiated "
             "under 1-4 construction orders; distinct = canonical form of the op DAG reachable from the root (op names, sharing pattern, which "
             "leaves require grad) x number of schedules; non-trivial = the root depends on a leaf through at least two op steps")
@@ -57,10 +57,17 @@ class ProgSim(Sim):
     def knobs(self, rng, tier):
         o3 = rng.random() < 0.4
         pool = O3_OPS if o3 else PROG_OPS
+        kn = self._knobs(rng, tier, o3, pool)
+        kn["max_events"] = 6000 if kn["scenario"] == "deep" else 60
+        if kn["scenario"] == "deep":
+            kn["n_sched"] = 0          # (one construction order: the deep scenario is about depth)
+        return kn
+
+    def _knobs(self, rng, tier, o3, pool):
         return {
             "max_events": 40, "o3": o3, "n_leaves": rng.randint(2, 6), "n_steps": rng.randint(3, 16),
             "ops": sorted(rng.sample(pool, rng.randint(5, len(pool)))),
-            "scenario": rng.choice(["free", "diamond", "fanout", "chain", "xx", "unbind", "frozen"]),
+            "scenario": rng.choice(["free", "diamond", "fanout", "chain", "xx", "unbind", "frozen", "flagmix", "flagmix"] + (["deep"] if rng.random() < 0.02 else [])),
             "f32": (not o3) and rng.random() < 0.25, "base": [rng.randint(1, 3), rng.randint(1, 4)],
             "n_sched": rng.randint(0, 3), "faulty": rng.random() < 0.3, "n_joins": rng.randint(0, 4),
         }
@@ -84,12 +91,21 @@ class ProgSim(Sim):
         st.sched_done = 0
         st.pending = []
         st.joins = 0
+        st.scripted = False
         return st
 
     # ------------------------------------------------------------------ generation
     def gen(self, rng, st):
         kn = st.knobs
         G = st.G
+        if st.pending:
+            return st.pending.pop(0)
+        if st.phase == "leaves" and kn["scenario"] in ("flagmix", "deep") and not st.scripted:
+            st.scripted = True
+            evs = self._script_flagmix(rng, st) if kn["scenario"] == "flagmix" else self._script_deep(rng, st)
+            st.pending.extend(evs[1:])
+            st.phase = "backward"
+            return evs[0]
         if st.phase == "leaves":
             if len(G.T) < kn["n_leaves"]:
                 return self._gen_leaf(rng, st)
@@ -151,6 +167,69 @@ class ProgSim(Sim):
             return {"k": "schedule", "order": [e["out"][0] for e in order], "gc": gcs}
         return None
 
+    # ---- scripted scenarios ------------------------------------------------------------------------------------------
+    def _script_flagmix(self, rng, st):
+        """one multi-operand op applied to fresh leaves under a random mix of requires_grad flags, joined with a trainable anchor so
+        that the root requires grad whatever the op makes of the mix (the statement: 'a mix of operands that do and do not require grad')"""
+        kind = rng.choice(["add", "mul", "sub", "div", "matmul", "addmm", "linear", "linear_nobias", "conv1d", "conv2d", "concat", "stack",
+                           "mse_loss", "bce_logits", "batch_norm", "F.add"])
+        n, c, h = rng.randint(2, 3), rng.randint(1, 3), rng.randint(2, 3)
+        shapes = {"add": [(n, c), (n, c)], "mul": [(n, c), (1, c)], "sub": [(n, c), (n, 1)], "div": [(n, c), (n, c)], "F.add": [(c,), (n, c)],
+                  "matmul": [(n, c), (c, h)], "addmm": [(n, h), (n, c), (c, h)], "linear": [(n, c), (h, c), (h,)], "linear_nobias": [(n, c), (h, c)],
+                  "conv1d": [(n, c, 4), (h, c, 2), (h,)], "conv2d": [(n, c, 3, 3), (h, c, 2, 2), (h,)], "concat": [(n, c), (n, c), (n, c)],
+                  "stack": [(n, c), (n, c), (n, c)], "mse_loss": [(n, c), (n, c)], "bce_logits": [(n, c), (n, c)], "batch_norm": [(n + 1, c), (c,), (c,)]}[kind]
+        flags = [rng.random() < 0.5 for _ in shapes]
+        if not any(flags):
+            flags[rng.randrange(len(flags))] = True
+        evs = []
+        ids = []
+        for sh, fl in zip(shapes, flags):
+            i = st.next_id + len(evs)
+            vals = small_values(rng, sh, np.float64, -2, 2, avoid_zero=True)
+            if kind == "div" and len(ids) == 1:
+                vals = np.abs(vals) + 0.5
+            evs.append({"k": "leaf", "id": i, "data": enc(vals), "rg": fl})
+            ids.append(i)
+        nid = st.next_id + len(evs)
+        args = {"dim": rng.choice([0, 1, -1])} if kind in ("concat", "stack") else {"s": 1, "p": 0, "d": 1} if kind == "conv1d" else \
+            {"s": [1, 1], "p": [0, 0], "d": [1, 1]} if kind == "conv2d" else {"affine": True} if kind == "batch_norm" else {}
+        evs.append({"k": "op", "op": "linear" if kind == "linear_nobias" else kind, "in": ids, "args": args, "out": [nid]})
+        # anchor: a trainable leaf joined in, so that backward runs even if the op result (wrongly) does not require grad
+        evs.append({"k": "leaf", "id": nid + 1, "data": enc(small_values(rng, (1,), np.float64, -2, 2, avoid_zero=True)), "rg": True})
+        evs.append({"k": "op", "op": "mean", "in": [nid], "args": {"dim": None, "keepdims": True}, "out": [nid + 2]})
+        evs.append({"k": "op", "op": "sum", "in": [nid + 1], "args": {"dim": None, "keepdims": True}, "out": [nid + 3]})
+        evs.append({"k": "op", "op": rng.choice(["add", "mul"]), "in": [nid + 2, nid + 3], "args": {}, "out": [nid + 4]})
+        return evs
+
+    def _script_deep(self, rng, st):
+        """a program deeper than the interpreter's recursion limit: the chain rule has no depth bound"""
+        depth = rng.choice([1100, 1500, 2200])
+        evs = [{"k": "leaf", "id": st.next_id, "data": enc(small_values(rng, (3,), np.float64, -2, 2, avoid_zero=True)), "rg": True},
+               {"k": "leaf", "id": st.next_id + 1, "data": enc(small_values(rng, (3,), np.float64, 0.5, 1.5, avoid_zero=True)), "rg": True}]
+        cur = st.next_id
+        w = st.next_id + 1
+        nid = st.next_id + 2
+        level = 0
+        for i in range(depth):
+            r = rng.random()
+            if r < 0.25:
+                c = 2.0 if level <= 0 else 0.5
+                level += 1 if c == 2.0 else -1
+                evs.append({"k": "op", "op": "mul_scalar", "in": [cur], "args": {"c": c}, "out": [nid]})
+            elif r < 0.45:
+                evs.append({"k": "op", "op": "add_scalar", "in": [cur], "args": {"c": 0.25}, "out": [nid]})
+            elif r < 0.55:
+                evs.append({"k": "op", "op": "F.neg", "in": [cur], "args": {}, "out": [nid]})
+            elif r < 0.75:
+                evs.append({"k": "op", "op": "tanh", "in": [cur], "args": {}, "out": [nid]})
+            elif r < 0.9:
+                evs.append({"k": "op", "op": "mul", "in": [cur, w], "args": {}, "out": [nid]})        # the recurrence h = h*w (+b): w is consumed at every level
+            else:
+                evs.append({"k": "op", "op": "add", "in": [cur, w], "args": {}, "out": [nid]})
+            cur = nid
+            nid += 1
+        return evs
+
     def _linear_extension(self, rng, G, evs):
         done = set(G.leaves())
         left = list(evs)
@@ -176,7 +255,11 @@ class ProgSim(Sim):
             w = [6, 3, 2, 2, 3, 1, 1, 2, 2, 2, 2, 2]
         shape = rng.choices(shapes, w)[0]
         dt = np.float32 if (kn["f32"] and rng.random() < 0.5) else np.float64
-        vals = small_values(rng, shape, dt, -2, 2, avoid_zero=rng.random() < 0.6)
+        if rng.random() < 0.01 and not kn["o3"]:
+            shape = (257, 256)                                   # rarely a LARGE leaf (size-dependent fast paths)
+            vals = (np.random.RandomState(rng.randrange(2 ** 31)).randint(-128, 128, size=shape) / 64.0).astype(dt)
+        else:
+            vals = small_values(rng, shape, dt, -2, 2, avoid_zero=rng.random() < 0.6)
         leaves = st.G.leaves()
         if kn["scenario"] == "frozen":
             rg = rng.random() < 0.5 if any(st.G.meta[i]["rg"] for i in leaves) else True
@@ -224,7 +307,7 @@ class ProgSim(Sim):
         outs = list(range(st.next_id, st.next_id + nout))
         ev = {"k": "op", "op": name, "in": ins, "args": args, "out": outs}
         if kn["faulty"] and rng.random() < 0.05:
-            ev["fault"] = {"kind": rng.choice(["alloc", "interrupt"]), "at": rng.randint(1, 2)}
+            ev["fault"] = {"kind": rng.choice(["alloc", "interrupt", "exit"]), "at": rng.randint(1, 2)}
         return ev
 
     # ------------------------------------------------------------------ events
@@ -429,7 +512,9 @@ class ProgSim(Sim):
             st.probes["float32_node_in_program"] += 1
         if any(len(consumers[i]) >= 2 or sum(1 for j in reach if G.meta[j]["kind"] == "node" and G.meta[j]["inputs"].count(i) >= 2) for i in rg_leaves):
             st.probes["multi_contribution_leaf"] += 1
-        st.sig = self._signature(st, reach) + [f"S{st.knobs['n_sched']}"]
+        st.sig = (self._signature(st, reach) if len(reach) < 200 else [f"deep{len(reach) // 500}"]) + [f"S{st.knobs['n_sched']}"]
+        if st.knobs["scenario"] == "flagmix":
+            st.probes["flagmix_scenario"] += 1
 
         # ---- the system: one backward on the DAG, traced through the backward-function seam
         SEAM.bw_calls = []
@@ -507,7 +592,12 @@ class ProgSim(Sim):
         # ---- O1: path-sum by tree expansion
         eps = 1.2e-7 if st.low else 2.3e-16
         absum = None
+        deep = len(evs) > 400
+        if deep:
+            st.probes["deep_program"] += 1
         try:
+            if deep:
+                raise TooBig()        # (the expansion is recursive in the harness; deep programs are judged by O2, O3 and O5)
             with fresh_modes(SG), quiet():
                 troot, clones = G.expand_tree(root)
                 SG.T.retain_grads__ = True        # keep interior gradients of the tree: their magnitude bounds the rounding noise of the kernels
@@ -573,8 +663,17 @@ class ProgSim(Sim):
                                 with_frozen_operands=a.tolist(), all_trainable=b.tolist())
 
         # ---- O3: absolute derivative by finite differences of the system's own forward
-        if st.knobs["o3"] and not st.low and all(G.T[i].data.ndim >= 1 and G.T[i].data.dtype == np.float64 for i in reach):
-            bad = [r for r in (self._screen_op(st, e, 2000 + n) for n, e in enumerate(evs)) if r]
+        if (st.knobs["o3"] or deep) and not st.low and all(G.T[i].data.ndim >= 1 and G.T[i].data.dtype == np.float64 for i in reach) and \
+                all(ops.SPECS[e["op"]].smooth for e in evs):
+            seen_ops = set()
+            bad = []
+            for n, e in enumerate(evs):
+                if deep and e["op"] in seen_ops:
+                    continue               # deep chains repeat a handful of op forms: screen each form once
+                seen_ops.add(e["op"])
+                r = self._screen_op(st, e, 2000 + n)
+                if r:
+                    bad.append(r)
             if bad:
                 st.notes["perop_defect:" + bad[0].split(":")[0]] += 1
                 st.probes["O3_skipped_perop_defect"] += 1
